@@ -16,7 +16,7 @@
 #include "random/ascon-trng.h"
 extern unsigned trng_draws;
 extern uint64_t trng_tape[];
-void spec_P(uint64_t x[5], unsigned r) { spec_permute(x, r); }
+/* spec_P: harness/common/lockstep.c (form I: the real specification permutation) */
 #define CAT_(a, b, c) a##b##c
 #define CAT(a, b, c) CAT_(a, b, c)
 
